@@ -57,6 +57,20 @@ def run(ctx) -> None:
                                                                               f'stale-label inputs are reported individually')
     check_heuristics(ctx, 'G6', only_classes={'HIP_RA_X', 'HIP_RA'})
     ctx.ok('G6', 'HIP_RA/no-heuristic-inside-range', 'src/hip_ra_x/hip_ra_x.py', 'heuristic sites in the HIP-RA classes are reported individually')
+    ctx.rule('G7', 'ConvertUnits hands the converted number back to the reader and never stores it itself (a stored value makes the reader '
+                   'skip range check and Provided flag, so a provided depth/pressure in another unit is treated as not provided)')
+    ctx.rule('G8', 'the HIP-RA clients neither cache by file name nor round parameter values when writing the input file')
+    cu = repo.module('geophires_x/Parameter.py').functions.get('ConvertUnits')
+    ctx.require(cu is not None, 'Parameter.ConvertUnits not found')
+    stores = [st for st in ast.walk(cu.node) if isinstance(st, (ast.Assign, ast.AugAssign)) and
+              any(norm(t) == 'ParamToModify.value' for t in (st.targets if isinstance(st, ast.Assign) else [st.target]))]
+    ctx.check(not stores, 'G7', 'ConvertUnits/does-not-store-the-value', f'{cu.module.rel}:{stores[0].lineno if stores else cu.node.lineno}',
+              f'`{norm(stores[0])[:80] if stores else ""}`: ConvertUnits stores the converted number into the parameter; ReadParameter then finds '
+              f'"new value == current value" and returns before the range check and before Provided is set', fact='returns the text only')
+    from rules.client_common import check_any_client_cache, check_lossless_rendering
+    check_any_client_cache(ctx, 'G8', only_prefixes=('src/hip_ra/__init__.py', 'src/hip_ra_x/__init__.py'))
+    nr = check_lossless_rendering(ctx, 'G8')
+    ctx.floor('G8', nr, 2, 'client parameter writers')
     f = repo.method('HIP_RA_X', 'Calculate')
     rel = f.module.rel
     body = _try_body(f)
